@@ -584,6 +584,8 @@ impl WalkBuilder {
             max_filesize: self.max_filesize,
             skip: self.skip.clone(),
             filter: self.filter.clone(),
+            same_file_system: self.same_file_system,
+            root_device: None,
         }
     }
 
@@ -917,6 +919,11 @@ pub struct Walk {
     max_filesize: Option<u64>,
     skip: Option<Arc<Handle>>,
     filter: Option<Filter>,
+    /// Whether directories on other file systems are not descended into.
+    same_file_system: bool,
+    /// The device of the root currently being walked, when
+    /// `same_file_system` is enabled.
+    root_device: Option<u64>,
 }
 
 impl Walk {
@@ -984,6 +991,11 @@ impl Iterator for Walk {
                         }
                         Some((path, Some(it))) => {
                             self.it = Some(it);
+                            self.root_device = if self.same_file_system {
+                                device_num(&path).ok()
+                            } else {
+                                None
+                            };
                             if path.is_dir() {
                                 let (ig, err) = self.ig_root.add_parents(path);
                                 self.ig = ig;
@@ -1012,7 +1024,17 @@ impl Iterator for Walk {
                         Ok(should_skip) => should_skip,
                     };
                     if should_skip {
-                        self.it.as_mut().unwrap().it.skip_current_dir();
+                        // walkdir does not descend into a directory on
+                        // another file system, so there is nothing to skip in
+                        // that case. (Skipping anyway would abandon the rest
+                        // of the *parent* directory.)
+                        let descended = self.root_device.map_or(true, |dev| {
+                            is_same_file_system(dev, ent.path())
+                                .unwrap_or(true)
+                        });
+                        if descended {
+                            self.it.as_mut().unwrap().it.skip_current_dir();
+                        }
                         // Still need to push this on the stack because
                         // we'll get a WalkEvent::Exit event for this dir.
                         // We don't care if it errors though.
